@@ -94,7 +94,8 @@ impl TryFrom<tir::InputQuery> for CanonicalQuery {
             .as_option()
             .map(|x| data_or_bail!(x, assets))
             .transpose()?
-            .map(|x| CanonicalAssets::from(Vec::from(x)));
+            .map(|x| tx3_tir::reduce::assets_into_canonical(Vec::from(x)))
+            .transpose()?;
 
         let refs = query
             .r#ref
